@@ -1,5 +1,4 @@
-\* quick tier: every history with at most 6 data bytes committed (ring of 6, so the ring wraps, and the round
-\* counter starts at RoundMod-1, so it wraps too); one reader.  c19.py rewrites Fix / Allow.
+\* thorough A: deeper histories, counter starting at 0 and at RoundMod-1
 SPECIFICATION Spec
 CONSTANTS
   Size = 6
@@ -8,16 +7,16 @@ CONSTANTS
   RoundMod = 8
   Fix = {}
   Record = FALSE
-  R0s = {7}
+  R0s = {0, 7}
   GetMins = {1, 3}
   BlockSizes = {1, 2, 3}
   Offsets = {0, 1}
   Set2Gaps = {0, 1}
   Set2Sizes = {2}
   InitBacks = {0, 2, 100}
-  DataSizes = {3, 10000}
+  DataSizes = {2, 3, 10000}
   IovCnts = {1, 64}
-  MaxWritten = 6
+  MaxWritten = 7
   MaxRounds = 3
   Allow = {}
   EmitMode = FALSE
